@@ -110,6 +110,30 @@ def rule_swar(col, facts):
             if last_seg(callee_name(c)) == "wrapping_sub" and len(a) == 2:
                 subs.add(fold(f, a[1]))
         col.check(R, name + ":normalise", rep in subs, "digits are not normalised by subtracting 0x30 from every lane (constants %s)" % [hex(x) for x in subs if x is not None], f.loc())
+        # round 7 (seed C04-r7-1): the result is sum(d_i * r^(lanes-1-i)) for every radix 2..10 the format can name, so a
+        # weight that is a *literal* (`* 100` for `* radix * radix`) is right for one radix only.  Decided structurally:
+        # no multiplication in the function has an operand that folds to a literal >= 2.  If the function tests the radix
+        # itself (a specialised arm per radix), a literal weight can be legitimate there: not applied.
+        muls = []
+        for b in f.blocks:
+            for st in b["s"]:
+                if st[0] == "=" and st[2][0] == "bin" and st[2][1].replace("WithOverflow", "").replace("Unchecked", "") == "Mul":
+                    muls.append((st[2][2], st[2][3]))
+        for bb, c, a, d, t_ in f.calls():
+            if last_seg(callee_name(c)) in ("wrapping_mul", "overflowing_mul", "checked_mul", "saturating_mul") and len(a) == 2:
+                muls.append((a[0], a[1]))
+        tests_radix = False
+        for b in f.blocks:
+            for st in b["s"]:
+                if st[0] == "=" and st[2][0] == "bin" and st[2][1] in ("Eq", "Ne"):
+                    tests_radix = True
+        lits = sorted({v for pair in muls for v in (fold(f, pair[0]), fold(f, pair[1])) if isinstance(v, int) and v >= 2})
+        if tests_radix:
+            col.assumed("not-applied", "TBL-swar:" + name + ":weights", "%s compares values for equality (a per-radix arm?): literal weights not decided" % name, f.loc())
+        else:
+            col.check(R, name + ":weights", not lits,
+                      "a lane weight is the literal %s, not derived from the format's radix: the combined value is wrong for every other radix <= 10" % lits, f.loc())
+            col.floor(R, name + " multiplications", len(muls), 2)
 
 
 def rule_multidigit_gate(col, facts):
